@@ -443,6 +443,7 @@ fn handle(req: &Value) -> Value {
 /// Compact batch mode for very large enumerations: every source is parsed and assembled (build mode) on its own.
 fn handle_batch(req: &Value) -> Value {
     let base_pc = req.get("pc").and_then(|v| v.as_u64()).unwrap_or(0x2000) as usize;
+    let want_display = req.get("display").and_then(|v| v.as_bool()).unwrap_or(false);
     let mut results = vec![];
     for src in req.get("batch").and_then(|b| b.as_array()).cloned().unwrap_or_default() {
         let text = src.as_str().unwrap_or("").to_string();
@@ -466,9 +467,17 @@ fn handle_batch(req: &Value) -> Value {
                     return json!({ "d": diags });
                 }
             };
+            let mut display = None;
+            if want_display {
+                let mut t = String::new();
+                for tok in tree.main_file().tokens.iter() {
+                    t.push_str(&format!("{}", tok));
+                }
+                display = Some(t);
+            }
             if !pd.is_empty() {
                 push(&pd, Some(&tree.code_map), &mut diags);
-                return json!({ "d": diags, "stage": "parse" });
+                return json!({ "d": diags, "stage": "parse", "t": display });
             }
             let options = CodegenOptions {
                 pc: base_pc.into(),
@@ -479,6 +488,9 @@ fn handle_batch(req: &Value) -> Value {
             let mut out = Map::new();
             out.insert("d".into(), json!(diags));
             out.insert("p".into(), json!(log.infos.len()));
+            if let Some(t) = display {
+                out.insert("t".into(), json!(t));
+            }
             if let Some(ctx) = ctx {
                 let segs: Vec<Value> = ctx
                     .segments()
